@@ -13,8 +13,9 @@ Import ListNotations.
 Open Scope N_scope.
 
 (* ---- the formatter section of a mapping file, as written ---- *)
-Record afmt := { fFields : list string; fRename : list (string * string); fRender : list (string * string) }.
-Definition empty_afmt : afmt := {| fFields := []; fRename := []; fRender := [] |}.
+Record afmt := { fFields : list string; fRename : list (string * string); fRender : list (string * string);
+                 fKeys : list string }.
+Definition empty_afmt : afmt := {| fFields := []; fRename := []; fRender := []; fKeys := [] |}.
 
 Fixpoint sassoc {A} (l : list (string * A)) (k : string) : option A :=
   match l with [] => None | (k', v) :: r => if String.eqb k' k then Some v else sassoc r k end.
@@ -132,15 +133,16 @@ Definition render_fn (conf : list (string * string)) (field : string) : option s
 Definition all_fields : list string := map (fun r => let '(j, _, _, _) := r in j) name_table.
 
 Record fmtc := { cFields : list string; cRename : list (string * string); cRend : list (string * string);
-                 cCustoms : list custom }.
+                 cCustoms : list custom; cKeys : list string }.
 (* None = Compile fails *)
 Definition compile_fmt (f : afmt) (cs : list custom) : option fmtc :=
   match configured_renderers f cs with
   | None => None
   | Some conf =>
-      let ok := forallb (fun s => in_remap cs s || match render_fn conf s with Some _ => true | None => false end) (fFields f) in
+      let ok := forallb (fun s => in_remap cs s || match render_fn conf s with Some _ => true | None => false end) (fFields f)
+                && forallb (in_remap cs) (fKeys f) in
       if ok then Some {| cFields := match fFields f with [] => all_fields | l => l end;
-                         cRename := fRename f; cRend := conf; cCustoms := cs |}
+                         cRename := fRename f; cRend := conf; cCustoms := cs; cKeys := fKeys f |}
       else None
   end.
 
@@ -272,4 +274,45 @@ Definition format_text (c : fmtc) (m : msg) : option bytes :=
   match format_members c m (cFields c) with
   | Some ms => Some (intersperse [32] (map (fun kv => fst kv ++ [61] ++ show_text_val (snd kv)) ms))
   | None => None
+  end.
+
+(* ---- the partition key (messages.go Key / baseKey): FNV-1 (32 bit) over fmt.Sprintf("%v") of the key fields
+   in configured order; a key field the message has neither as a struct field nor in its unknown section is
+   passed over; no key fields, no key ---- *)
+Definition show_v_gval (v : gval) : bytes :=
+  match v with
+  | GU32 n | GU64 n => show_dec n
+  | GEnum t n => enum_name t n
+  | GBytes b => 91 :: intersperse [32] (map show_dec b) ++ [93]
+  end.
+Definition show_v (v : fval) : bytes :=
+  match v with
+  | FOne x => show_v_gval x
+  | FMany l => 91 :: intersperse [32] (map show_v_gval l) ++ [93]
+  end.
+(* the text of one key field; Some [] when it is passed over; None = shapes mixed (outside the model) *)
+Definition key_text (c : fmtc) (m : msg) (s : string) : option bytes :=
+  let field := remap (cCustoms c) s in
+  match struct_by_go field with
+  | Some (_, g, col, k) => Some (show_v (struct_value m g col k))
+  | None => match unk_value (cCustoms c) (unk m) s None with
+            | Some (Some v) => Some (show_v v)
+            | Some None => Some []
+            | None => None
+            end
+  end.
+Definition fnv1_32 (data : bytes) : N :=
+  fold_left (fun h b => N.lxor (h * 16777619 mod 4294967296) b) data 2166136261.
+Fixpoint key_texts (c : fmtc) (m : msg) (keys : list string) : option bytes :=
+  match keys with
+  | [] => Some []
+  | s :: r => match key_text c m s, key_texts c m r with
+              | Some a, Some b => Some (a ++ b)
+              | _, _ => None
+              end
+  end.
+Definition msg_key (c : fmtc) (m : msg) : option bytes :=
+  match cKeys c with
+  | [] => Some []
+  | ks => match key_texts c m ks with Some t => Some (enc_be 4 (fnv1_32 t)) | None => None end
   end.
